@@ -52,13 +52,13 @@ def draw_rotation(rng, wild=True):
 def draw_tm_scatterer(rng, center, wild=True, sizeclass=None):
     kind = rng.choice(['spheroid', 'spheroid', 'cylinder', 'sphere'])
     sizeclass = sizeclass or rng.choices(
-        ['small', 'mid', 'edge', 'huge'], [0.35, 0.45, 0.15, 0.05])[0]
+        ['small', 'mid', 'edge', 'huge'], [0.4, 0.46, 0.08, 0.06])[0]
     if sizeclass == 'small':
         a = rfloat(rng, 0.01, 0.2, 4)
     elif sizeclass == 'mid':
         a = rfloat(rng, 0.2, 0.9, 4)
     elif sizeclass == 'edge':
-        a = rfloat(rng, 0.9, 2.2, 4)
+        a = rfloat(rng, 0.9, 1.5, 4)
     else:
         a = rfloat(rng, 8.4, 12.0, 3)   # beyond the work arrays: fails fast
     n = draw_index(rng, 0.3)
@@ -239,8 +239,8 @@ class C10:
             a = rfloat(rng, 0.05, 0.8, 4)
             base = draw_tm_scatterer(
                 rng, cen, wild=False,
-                sizeclass=rng.choice(['small', 'mid', 'mid', 'edge',
-                                      'huge']))
+                sizeclass=rng.choice(['small', 'mid', 'mid', 'mid', 'mid',
+                                      'mid', 'edge', 'huge']))
             while base['op'] == 'sphere':
                 base = draw_tm_scatterer(rng, cen, wild=False,
                                          sizeclass='mid')
